@@ -70,6 +70,9 @@ type c19Params struct {
 	DebugDir string     `json:"debugdir,omitempty"`
 	Inject   *c19Inject `json:"inject,omitempty"`
 	Ungated  bool       `json:"ungated,omitempty"` // run outside the gate (full rebuilds; end-state invariants only)
+	// NoRestore fails every cache index read of the top-level process after the
+	// nested go command returned, so that nothing is restored into the debug dir.
+	NoRestore bool `json:"no_restore,omitempty"`
 }
 
 func c19BreakSource(src, how string) error {
@@ -380,6 +383,9 @@ func (c c19) Generate(e *Env) ([]*Case, error) {
 		}
 		add(p)
 	}
+	// ... with the restore-from-cache step starved of every cache entry: what the
+	// build itself wrote must already be the complete, correct trees ...
+	add(c19Params{Cmd: "build", State: "warm", DebugDir: "owned", NoRestore: true})
 	// ... with injected failures in the debugdir handling of the top-level process ...
 	if err := injectAll(c19Params{Cmd: "build", State: "warm", DebugDir: "owned-stale"}, q(40, 10)); err != nil {
 		return nil, err
@@ -514,6 +520,25 @@ func (c c19) Run(e *Env, cs *Case) (*Outcome, error) {
 			return engine.Action{Kind: "fail", Errno: in.Errno}, true
 		}
 	}
+	if p.NoRestore {
+		// Every read of a cache index by the top-level process AFTER the nested go
+		// command has returned fails: the restore-from-cache step finds nothing, so
+		// the debug dir keeps exactly what the build itself wrote. It must still be
+		// the same trees (the restore step may only ever rewrite identical bytes).
+		afterBuild := false
+		pol.Decide = func(s *engine.Sim, pr *engine.Proc, ev *engine.Msg) (engine.Action, bool) {
+			if !strings.HasPrefix(pr.ID, "A/top#") {
+				return engine.Action{}, false
+			}
+			if ev.Op == "exec-done" && strings.Contains(ev.Site, "mainErr/os/exec.Cmd.Run") {
+				afterBuild = true
+			}
+			if afterBuild && ev.Op == "open" && strings.Contains(ev.Site, "cache.Cache.get/os.Open") {
+				return engine.Action{Kind: "fail", Errno: int(syscall.EIO)}, true
+			}
+			return engine.Action{}, false
+		}
+	}
 	var s *engine.Sim
 	ungated := p.Ungated || (p.State == "cold" && cfg.Name == "debugdir")
 	if ungated {
@@ -562,6 +587,9 @@ func (c c19) Run(e *Env, cs *Case) (*Outcome, error) {
 	}
 	if p.Inject != nil {
 		key += fmt.Sprintf("/inject:%s:%d@%s[%s]", p.Inject.Kind, p.Inject.Errno, p.Inject.Site, p.Inject.Op)
+	}
+	if p.NoRestore {
+		key += "/no-restore"
 	}
 	viol := func(class, detail string) (*Outcome, error) {
 		o.Violation = &Violation{Class: class, Key: class + "/" + key, Detail: detail + fmt.Sprintf("\ncommand exit status %d; stderr: %s", cl.ExitCode, firstLines(shortErr(cl.Stderr.String()), 6))}
